@@ -290,6 +290,9 @@ static Boolean DecodeAdr(int ArgIndex, unsigned ModeMask, tAdrVals* pVals) {
             WrStrErrorPos(ErrNum_UndefOpSizes, &ArgStr[ArgIndex]);
             goto done;
         }
+        if (!OK) {
+            goto done;
+        }
 
         if ((ModeMask & MModeMemReg)
             && (ShortImm(Value, OpSize, &pVals->Arg, &pVals->ShiftLSB))) {
